@@ -44,7 +44,11 @@ func vDerive(parent *vDerived, id string) *vDerived {
 		d.log = parent.log.WithLazy(d.add("k"+id, x))
 	case 3:
 		// names are arbitrary text: some begin or end with the separator itself
-		n := []string{"", "svc" + id, ".d" + id, "e" + id + "."}[vrt.Choice(id+".name", 4)]
+		names := []string{"", "svc" + id, ".d" + id, "e" + id + "."}
+		if vNarrowNames {
+			names = names[:2]
+		}
+		n := names[vrt.Choice(id+".name", len(names))]
 		if n != "" {
 			d.names = append(d.names, n)
 		}
@@ -391,11 +395,14 @@ func VC07Program2() { vContextProgram(2, 1, 4, 5, 6, 7) }
 //verif: prop=C07 bounds="derivation programs of 2 steps from the 7-operation core menu over the encoding cores (JSON, console, sampler over JSON), output decoded"
 func VC07Program2Text() { vContextProgramOps(2, vCoreOps, 2, 3, 9) }
 
-//verif: prop=C07 tier=thorough bounds="derivation programs of 3 steps from the 7-operation core menu (With, WithLazy 2 fields, Sugar.WithLazy, Named, Namespace alone, namespace-opening object, mutable-state marshaler) over all 10 core kinds"
-func VC07Program3() { vContextProgramOps(3, vCoreOps) }
+//verif: prop=C07 tier=thorough bounds="derivation programs of 3 steps from the 7-operation core menu (With, WithLazy 2 fields, Sugar.WithLazy, Named(empty | plain name), Namespace alone, namespace-opening object, mutable-state marshaler) over all 10 core kinds"
+func VC07Program3() { vNarrowNames = true; vContextProgramOps(3, vCoreOps) }
 
 //verif: prop=C07 bounds="derivation programs of 3 steps (so that two siblings can be derived from a derived, still unused parent) over the recorder core and the lazy-with core"
 func VC07Program3Rec() { vContextProgram(3, 0, 8) }
 
 //verif: prop=C07 tier=thorough bounds="derivation programs of 4 steps from the 7-operation core menu over the recorder core"
-func VC07Program4Rec() { vContextProgramOps(4, vCoreOps, 0) }
+func VC07Program4Rec() { vNarrowNames = true; vContextProgramOps(4, vCoreOps, 0) }
+
+// vNarrowNames restricts Named to {empty, plain name} in the largest programs (the dotted names are covered by the smaller ones).
+var vNarrowNames bool
